@@ -16,10 +16,17 @@ import chartgen as G
 sys.path.insert(0, HARNESS)
 import pml_run as P
 
+# bit positions of PmlStep.pml_variant as extract/pmlstep/driver.ml reads them; bit 8 is no defect but a variant
+# (histories covered inner-first, the alternative repair of history_completion_covered)
 SWITCHES = ['in_predicate_reads_root', 'initial_ancestor_loop_breaks', 'deep_completion_test_unnegated',
             'history_default_only_if_parent_inactive', 'nested_history_for_shallow', 'star_in_descriptor_list_ignored',
-            'history_completion_covered', 'transition_found_flag_stale']
-NV = len(SWITCHES) + 1     # + one variant bit: histories covered inner-first (alternative repair of history_completion_covered)
+            'history_completion_covered', 'transition_found_flag_stale', '(variant) history_covering_inner_first',
+            'cond_not_parenthesised']
+NV = len(SWITCHES)
+VARIANT_BIT = 8
+COND_BIT = 9
+DEFECTS = [k for k in range(NV) if k != VARIANT_BIT]
+AW = ''.join('0' if k == VARIANT_BIT else '1' for k in range(NV))      # the template as first found
 K_ITER = 30
 
 
@@ -101,10 +108,32 @@ def tree_of_sx(text):
     return node(_sx_parse(text))
 
 
-def pml_scxml(tree):
+def _bare(cond):
+    """drop the outermost parentheses of a rendered condition whose top-level operator is || or &&"""
+    if not (cond.startswith('(') and cond.endswith(')')):
+        return cond
+    depth = 0
+    top = False
+    for i, ch in enumerate(cond):
+        if ch == '(':
+            depth += 1
+        elif ch == ')':
+            depth -= 1
+            if depth == 0 and i != len(cond) - 1:
+                return cond                     # the first parenthesis does not enclose everything
+        elif depth == 1 and (cond.startswith(' || ', i) or cond.startswith(' &amp;&amp; ', i)):
+            top = True
+    return cond[1:-1] if top else cond
+
+
+def pml_scxml(tree, bare=False):
     """the document given to the transpiler: <log> gets a label, because the emitted printf has no newline and
-    two numbers in a row could not be told apart"""
-    return G.to_scxml(tree, 'promela').replace('<log expr=', '<log label="L" expr=')
+    two numbers in a row could not be told apart.  bare: transition conditions `(x || y)` / `(x && y)` are
+    spelled `x || y` / `x && y`, as a person writes them (chartgen always parenthesises)"""
+    x = G.to_scxml(tree, 'promela').replace('<log expr=', '<log label="L" expr=')
+    if bare:
+        x = re.sub(r'(<transition\b[^>]*? cond=")([^"]*)(")', lambda m: m.group(1) + _bare(m.group(2)) + m.group(3), x)
+    return x
 
 
 # ------------------------------------------------------------------ generators
@@ -175,6 +204,16 @@ def gen_chart(rng, kind):
         for n in props:
             if rng.random() < 0.5:
                 n['onentry'] = n.get('onentry', []) + [[('raise', vidc(), rng.choice(G.EVENTS))]]
+    if kind == 'orcond':
+        # conditions whose top-level operator is || (and some &&), over the variables
+        def cmp_():
+            return ('<', rng.choice([('v', 1), ('v', 2), ('n', rng.randint(0, 3))]), rng.choice([('v', 1), ('v', 2), ('n', rng.randint(0, 3))]))
+        for n in G.walk(t):
+            for tr in n.get('trans', []):
+                if rng.random() < 0.6:
+                    tr['cond'] = (rng.choice(['|', '|', '|', '&']), cmp_(), rng.choice([cmp_(), ('!', cmp_()), ('&', cmp_(), cmp_()), ('|', cmp_(), cmp_())]))
+    if kind == 'pow2':
+        pad_to_power_of_two(t, rng, vidc)
     if kind == 'star':
         for n in G.walk(t):
             for tr in n.get('trans', []):
@@ -189,7 +228,71 @@ def gen_chart(rng, kind):
     return t
 
 
-KINDS = ['with-in'] * 2 + ['no-in'] * 4 + ['history'] * 3 + ['initial'] * 1 + ['star'] * 1
+KINDS = ['with-in'] * 2 + ['no-in'] * 4 + ['history'] * 3 + ['initial'] * 1 + ['star'] * 1 + ['orcond'] * 2 + ['pow2'] * 2
+
+
+def is_pow2(n):
+    return n >= 1 and (n & (n - 1)) == 0
+
+
+def literal_estimate(tree):
+    """number of literals PromelaCodeAnalyzer enumerates: event names (descriptors without trailing * and .,
+    names raised and sent, done.state.<id> of compound and parallel states) + _sessionid + _name"""
+    names = set()
+
+    def blk(b):
+        for i in b:
+            if i[0] in ('raise', 'send', 'sendbt', 'sendbg'):
+                names.add(i[2])
+            elif i[0] == 'if':
+                blk([y for y in i[3] if y[0] not in ('elseif', 'else')])
+    for n in G.walk(tree):
+        for b in n.get('onentry', []) + n.get('onexit', []):
+            blk(b)
+        for tr in n.get('trans', []):
+            blk(tr['body'])
+            if tr['ev'] is not None:
+                for d in tr['ev'].split():
+                    if d.endswith(b'*'):
+                        d = d[:-1]
+                    if d.endswith(b'.'):
+                        d = d[:-1]
+                    if d:
+                        names.add(d)
+        if n['kind'] == 'parallel' or (n['kind'] == 'state' and any(k['kind'] in ('state', 'parallel', 'final') for k in n['kids'])):
+            names.add(b'done.state.s%d' % n['sid'])
+    return len(names) + 2
+
+
+def pad_to_power_of_two(tree, rng, vidc):
+    """the widths of `unsigned x : n` in the emitted model are computed from the numbers of states, transitions and
+    literals: put one of them (or its successor) on a power of two"""
+    what = rng.choice(['states', 'states+1', 'trans', 'trans+1', 'literals', 'literals+1'])
+    props = [n for n in G.proper_states(tree) if n['kind'] != 'final']
+    host = rng.choice(props) if props else None
+    maxsid = max(n['sid'] for n in G.walk(tree))
+    for _ in range(70):
+        nst = sum(1 for _ in G.walk(tree))
+        ntr = sum(len(n.get('trans', [])) for n in G.walk(tree))
+        nlit = literal_estimate(tree)
+        v = {'states': nst, 'states+1': nst + 1, 'trans': ntr, 'trans+1': ntr + 1, 'literals': nlit, 'literals+1': nlit + 1}[what]
+        if is_pow2(v) and v >= 4:
+            break
+        if what.startswith('states'):
+            maxsid += 1
+            tree['kids'].append(G.node('state', maxsid))
+        elif what.startswith('trans') and host is not None:
+            host['trans'].append(G.trans(vidc(), b'zz', None, None, False, []))
+        elif host is not None:
+            # one never-enabled transition whose body names new events: literals only
+            pad = [tr for tr in host['trans'] if tr['ev'] == b'zz.pad']
+            if not pad:
+                host['trans'].append(G.trans(vidc(), b'zz.pad', None, None, False, []))
+            else:
+                pad[0]['body'].append(('raise', vidc(), b'p%d' % len(pad[0]['body'])))
+        else:
+            break
+    return tree
 
 
 # ------------------------------------------------------------------ views
@@ -413,7 +516,7 @@ def run(c):
 
     # ---- 1. defect switches of the implementation, from the witnesses
     wit = [(w, tree_of_sx(w['sx'])) for w in corpus]
-    wres = P.run_many([('w%d' % i, pml_scxml(t)) for i, (w, t) in enumerate(wit)], os.path.join(work, 'wit'), build)
+    wres = P.run_many([('w%d' % i, pml_scxml(t, True)) for i, (w, t) in enumerate(wit)], os.path.join(work, 'wit'), build)
     caps = (7, 13)
     for r in wres:
         if r['status'] == 'ok' and r['pml']['queues'].get('ROOT_iQ'):
@@ -423,7 +526,6 @@ def run(c):
     vec = ['0'] * NV
     swnotes = {}
     lines = []
-    AW = '1' * len(SWITCHES) + '0'
     for (w, t) in wit:
         lines.append(mline(AW, t, caps))
         lines.append(mline(vbits(AW, w['switch']) if w['switch'] is not None else '0' * NV, t, caps))
@@ -440,7 +542,7 @@ def run(c):
         off, _, _ = raw_equal(ir, split_model(mo[3 * i + 1])[0])
         if w['switch'] == 6 and not on and not off and raw_equal(ir, split_model(mo[3 * i + 2])[0])[0]:
             vec[6] = '1'
-            vec[len(SWITCHES)] = '1'
+            vec[VARIANT_BIT] = '1'
             swnotes[w['name']] = 'covering walks the histories inner-first (alternative repair)'
             continue
         if w['switch'] is None:
@@ -458,25 +560,29 @@ def run(c):
             swnotes[w['name']] = 'neither variant matches'
             vec[w['switch']] = '1'
     vec = ''.join(vec)
-    c.notes['defect_switches'] = dict(zip(SWITCHES + ['(variant) history_covering_inner_first'], vec))
+    c.notes['defect_switches'] = dict(zip(SWITCHES, vec))
     c.notes['witnesses'] = swnotes
     c.notes['ltl_needs_state_named_pass'] = needs_pass
 
     # ---- 2. cases
     rng = random.Random(c.seed * 104729 + 6)
-    cases = [{'tree': t, 'origin': 'corpus:' + w['name']} for (w, t) in wit]
+    cases = [{'tree': t, 'origin': 'corpus:' + w['name'], 'bare': True} for (w, t) in wit]
+
+    def cvec(x):
+        """the switches for one case: the missing parentheses only matter for a document that leaves them out"""
+        return vec if x['bare'] else vec[:COND_BIT] + '0' + vec[COND_BIT + 1:]
     nrand = 1000 if quick else 20000
     if os.environ.get('VERIF_C06_N'):
         nrand = int(os.environ['VERIF_C06_N'])
     for i in range(nrand):
         k = KINDS[i % len(KINDS)]
-        cases.append({'tree': gen_chart(rng, k), 'origin': 'random-' + k})
-    items = [('c%d' % i, pml_scxml(x['tree'])) for i, x in enumerate(cases)]
+        cases.append({'tree': gen_chart(rng, k), 'origin': 'random-' + k, 'bare': k == 'orcond' or rng.random() < 0.5})
+    items = [('c%d' % i, pml_scxml(x['tree'], x['bare'])) for i, x in enumerate(cases)]
     res = P.run_many(items, work, build)
-    model, mcr = run_lines_sharded(vm, [mline(vec, x['tree'], caps) for x in cases], timeout=1500)
+    model, mcr = run_lines_sharded(vm, [mline(cvec(x), x['tree'], caps) for x in cases], timeout=1500)
     large, lcr = run_lines_sharded(vd, [impl_line('large', x['tree'], 'promela', False, []) for x in cases], timeout=1500)
     fast, fcr = run_lines_sharded(vd, [impl_line('fast', x['tree'], 'promela', False, []) for x in cases], timeout=1500)
-    gmodel, _ = run_lines_sharded(vm, ['guards %s %s' % (vec, G.sx_tree(x['tree'])) for x in cases], timeout=1500)
+    gmodel, _ = run_lines_sharded(vm, ['guards %s %s' % (cvec(x), G.sx_tree(x['tree'])) for x in cases], timeout=1500)
     gspec, _ = run_lines_sharded(vm, ['guardspec %s' % G.sx_tree(x['tree']) for x in cases], timeout=1500)
 
     attrs = sorted(set(tr['ev'] for x in cases for n in G.walk(x['tree']) for tr in n.get('trans', []) if tr['ev'] is not None))
@@ -491,7 +597,7 @@ def run(c):
     nontriv = set()
     qfull = 0
     hist = {'by_origin': {}, 'with_history': 0, 'with_parallel': 0, 'with_initial_element': 0, 'with_In': 0, 'terminated': 0, 'blocked_on_empty_queue': 0,
-            'observation_limit': 0, 'transitions_with_event': 0}
+            'observation_limit': 0, 'transitions_with_event': 0, 'width_boundaries': {}, 'bare_conditions': 0}
     for i, (x, r) in enumerate(zip(cases, res)):
         o = x['origin'].split(':')[0]
         hist['by_origin'][o] = hist['by_origin'].get(o, 0) + 1
@@ -506,6 +612,12 @@ def run(c):
         for t in r['raw']:
             k = t.split(':')[0]
             tokkinds[k] = tokkinds.get(k, 0) + 1
+        nlit = len(r['pml']['literal'])
+        for key, val in (('states', r['ann']['nstates']), ('states+1', r['ann']['nstates'] + 1), ('transitions', r['ann']['ntrans']),
+                         ('transitions+1', r['ann']['ntrans'] + 1), ('literals', nlit), ('literals+1', nlit + 1)):
+            if val >= 4 and is_pow2(val):
+                hist['width_boundaries'][key] = hist['width_boundaries'].get(key, 0) + 1
+        hist['bare_conditions'] += bool(x['bare'] and re.search(r'<transition\b[^>]*? cond="[^("][^"]*( \|\| | &amp;&amp; )', items[i][1]))
         if 'FIN' in r['raw']:
             hist['terminated'] += 1
         elif 'TIMEOUT' in r['raw']:
@@ -560,26 +672,26 @@ def run(c):
         idxs = [i for i, k in oracle_bad if k is None]
         lines = []
         for i in idxs:
-            for k in range(len(SWITCHES)):
-                lines.append(mline(vbits(vec, k), cases[i]['tree'], caps))
+            for k in range(NV):
+                lines.append(mline(vbits(cvec(cases[i]), k), cases[i]['tree'], caps))
             lines.append(mline('0' * NV, cases[i]['tree'], caps))
         mo, _ = run_lines_sharded(vm, lines, timeout=1500)
-        per = len(SWITCHES) + 1
+        per = NV + 1
         for n, i in enumerate(idxs):
             vi, itr = view_interp(large[i])
             vf, ftr = view_interp(fast[i])
             vp, ptr, pq = view_impl(res[i])
             noev = res[i]['ann']['ntrans'] == 0
             cls = None
-            for k in range(len(SWITCHES)):
-                if vec[k] != '1':
+            for k in DEFECTS:
+                if cvec(cases[i])[k] != '1':
                     continue
                 vm_, mtr, _ = view_model(mo[n * per + k])
                 if same_behaviour(vm_, mtr, vi, itr, noev):
                     cls = SWITCHES[k]
                     break
             if cls is None:
-                vm_, mtr, _ = view_model(mo[n * per + len(SWITCHES)])
+                vm_, mtr, _ = view_model(mo[n * per + NV])
                 if same_behaviour(vm_, mtr, vi, itr, noev):
                     cls = 'several-switches'
                 elif same_behaviour(vp, ptr, vf, ftr, noev):
@@ -594,6 +706,10 @@ def run(c):
         for i, k in oracle_bad:
             if k is not None:
                 classes.setdefault(k, []).append(i)
+
+    # ---- 3b. declared widths of structured variables (ChartToPromela::declForRange) at their boundaries
+    probes = range_probes(vd, os.path.join(work, 'range'), build)
+    c.cov['declared_width_probes'] = {'documents': probes['n'], 'different': {k: len(v) for k, v in probes['bad'].items()}}
 
     # ---- 4. same output whatever seed resolves spin's choices (supports pml_deterministic)
     sample = [i for i, r in enumerate(res) if r['status'] == 'ok'][:: (10 if quick else 40)][:200]
@@ -684,6 +800,14 @@ def run(c):
             continue
         c.violation(replay(i, {'kind': 'oracle', 'class': cls, 'transition_postfix_index': j, 'count': len(guard_bad),
                                'expected_by_name_match_spec': spec, 'observed_guard_literals': impl_s}))
+    for cls, bad in sorted(probes['bad'].items()):
+        f = c.match_known({'class': cls})
+        if f:
+            c.known(f['id'], f['what'])
+            continue
+        xml, exp, obs = bad[0]
+        c.violation({'kind': 'oracle', 'class': cls, 'count': len(bad), 'scxml': xml, 'expected_interpreter_log': exp, 'observed_promela_model_log': obs,
+                     'replay_cmd': 'python3 /verif/harness/pml_run.py <file with the scxml above>   # interpreter: vdriver `run large <hex scxml> 20 -`'})
     if det_bad:
         i = sorted(det_bad, key=size)[0]
         c.violation(replay(i, {'kind': 'oracle', 'class': 'nondeterministic-model', 'count': len(det_bad),
@@ -707,6 +831,28 @@ def run(c):
         for b in broken:
             c.violation({'kind': 'obligation', 'theorem': b['name'], 'why': b.get('why', '')}, no_input=True)
     return c.finish()
+
+
+def range_probes(vd, work, build):
+    """documents with a structured variable whose field takes a constant K / a computed K + 1, K around the
+    thresholds of declForRange (bool <= 1, byte <= 255, short <= 32767) and around powers of two: the log output
+    of the emitted model against the interpreter's.  Outside the chart model (Chart.v has integer variables only)."""
+    H = '<?xml version="1.0"?><scxml xmlns="http://www.w3.org/2005/07/scxml" version="1.0" datamodel="promela" name="m">'
+    docs = []
+    for K in (1, 2, 3, 4, 7, 8, 16, 64, 127, 128, 255, 256, 257, 1024, 32767, 32768, 65536):
+        docs.append(('field-width-constant', H + '<datamodel><data id="VarS">{"a": 1, "b": %d}</data></datamodel><state id="s1"><onentry>'
+                     '<log label="L" expr="VarS.b"/><assign location="VarS.a" expr="%d"/><log label="L" expr="VarS.a"/></onentry></state></scxml>' % (K, K)))
+        docs.append(('field-width-computed', H + '<datamodel><data id="VarS">{"a": %d}</data></datamodel><state id="s1"><onentry>'
+                     '<assign location="VarS.a" expr="VarS.a + 1"/><log label="L" expr="VarS.a"/></onentry></state></scxml>' % K))
+    res = P.run_many([('r%d' % i, x) for i, (k, x) in enumerate(docs)], work, build)
+    io, _ = run_lines_sharded(vd, ['run large %s 20 -' % x.encode('latin-1').hex() for k, x in docs])
+    out = {'n': len(docs), 'bad': {}}
+    for (k, x), r, il in zip(docs, res, io):
+        exp = [t for t in canon(il)[0] if t.startswith('LOG:')]
+        obs = [t for t in r['raw'] if t.startswith('LOG:')] if r['status'] == 'ok' else [r['status']]
+        if exp != obs:
+            out['bad'].setdefault(k, []).append((x, ' '.join(exp), ' '.join(obs)))
+    return out
 
 
 def guard_attr(tree, j):
